@@ -31,6 +31,7 @@ structure Inv (s : S) : Prop where
   inside : ∀ m pc f, s.inside = some (m, pc, f) → (f = true → s.closed = true ∧ pc = .atCheck)
   late : (s.closed = false → s.deliveredAfterClose = 0) ∧
          s.deliveredAfterClose + (match s.reader with | .checked _ => 1 | _ => 0) ≤ 1
+  silent : s.localClosing = false ∧ s.reportsAfterLocal = 0
 
 theorem inv_init : Inv ({} : S) where
   noPanic := ⟨rfl, rfl⟩
@@ -43,6 +44,7 @@ theorem inv_init : Inv ({} : S) where
   rets := by intro p hp; cases hp
   inside := by intro m pc f h; cases h
   late := ⟨fun _ => rfl, by decide⟩
+  silent := ⟨rfl, rfl⟩
 
 /-- the once body, fixed design -/
 theorem shutdown_fixed (s : S) (err byErr : Bool) :
@@ -56,8 +58,9 @@ theorem errorPath_fixed (s : S) :
     errorPath Cfg.fixed s =
       if s.once then s
       else { s with once := true, closed := true, errSet := true, closeCh := true, sock := true,
-                    localFirst := false, reports := s.reports + 1 } := by
-  simp only [errorPath, shutdown_fixed]
+                    localFirst := false, reports := s.reports + 1,
+                    reportsAfterLocal := if s.localClosing then s.reportsAfterLocal + 1 else s.reportsAfterLocal } := by
+  simp only [errorPath, shutdown_fixed, report]
   by_cases h : s.once = true <;> simp [h, Cfg.fixed]
 
 theorem inv_errorPath {s : S} (h : Inv s) : Inv (errorPath Cfg.fixed s) := by
@@ -65,32 +68,34 @@ theorem inv_errorPath {s : S} (h : Inv s) : Inv (errorPath Cfg.fixed s) := by
   by_cases ho : s.once = true
   · simp only [ho, if_true]; exact h
   · have ho' : s.once = false := by simpa using ho
-    obtain ⟨h1, h2, h3, h4, h5, h6, h7, h8, h9, h10⟩ := h
+    obtain ⟨h1, h2, h3, h4, h5, h6, h7, h8, h9, h10, h11⟩ := h
     have hc : s.closed = false := by rw [h2.1, ho']
     simp only [ho', Bool.false_eq_true, if_false]
-    refine ⟨h1, ⟨rfl, rfl, rfl⟩, fun _ => rfl, ?_, fun _ => rfl, ?_, h7, h8, ?_, ?_⟩
+    refine ⟨h1, ⟨rfl, rfl, rfl⟩, fun _ => rfl, ?_, fun _ => rfl, ?_, h7, h8, ?_, ?_, ?_⟩
     · simp [ho'] at h4; simp [h4]
     · intro hl; cases hl
     · intro m pc f hi hf
       have := h9 m pc f hi hf
       rw [hc] at this; cases this.1
     · exact ⟨(by intro hx; cases hx), h10.2⟩
+    · exact ⟨h11.1, by simp [h11.1, h11.2]⟩
 
 theorem inv_localClose {s : S} (h : Inv s) : Inv (shutdown Cfg.fixed s false false).1 := by
   rw [shutdown_fixed]
   by_cases ho : s.once = true
   · simp only [ho, if_true]; exact h
   · have ho' : s.once = false := by simpa using ho
-    obtain ⟨h1, h2, h3, h4, h5, h6, h7, h8, h9, h10⟩ := h
+    obtain ⟨h1, h2, h3, h4, h5, h6, h7, h8, h9, h10, h11⟩ := h
     have hc : s.closed = false := by rw [h2.1, ho']
     simp only [ho', Bool.false_eq_true, if_false]
-    refine ⟨h1, ⟨rfl, rfl, rfl⟩, fun _ => rfl, ?_, ?_, fun _ => rfl, h7, h8, ?_, ?_⟩
+    refine ⟨h1, ⟨rfl, rfl, rfl⟩, fun _ => rfl, ?_, ?_, fun _ => rfl, h7, h8, ?_, ?_, ?_⟩
     · simp [ho'] at h4; simp [h4]
     · intro hx; simp at hx
     · intro m pc f hi hf
       have := h9 m pc f hi hf
       rw [hc] at this; cases this.1
     · exact ⟨(by intro hx; cases hx), h10.2⟩
+    · exact h11
 
 theorem errorPath_closed {s : S} (h : Inv s) : (errorPath Cfg.fixed s).closed = true := by
   rw [errorPath_fixed]
@@ -108,42 +113,42 @@ theorem errorPath_same (s : S) :
 theorem inv_step {s : S} (h : Inv s) (a : Act) : Inv (step Cfg.fixed s a) := by
   cases a with
   | enter =>
-    obtain ⟨h1, h2, h3, h4, h5, h6, h7, h8, h9, h10⟩ := h
+    obtain ⟨h1, h2, h3, h4, h5, h6, h7, h8, h9, h10, h11⟩ := h
     simp only [step]
     split
-    · exact ⟨h1, h2, h3, h4, h5, h6, h7, h8, h9, h10⟩
-    · refine ⟨h1, h2, h3, h4, h5, h6, h7, h8, ?_, h10⟩
+    · exact ⟨h1, h2, h3, h4, h5, h6, h7, h8, h9, h10, h11⟩
+    · refine ⟨h1, h2, h3, h4, h5, h6, h7, h8, ?_, h10, h11⟩
       intro m pc f he hf
       simp_all
   | wCheck =>
-    obtain ⟨h1, h2, h3, h4, h5, h6, h7, h8, h9, h10⟩ := h
+    obtain ⟨h1, h2, h3, h4, h5, h6, h7, h8, h9, h10, h11⟩ := h
     simp only [step]
     split
     · split
-      · refine ⟨h1, h2, h3, h4, h5, h6, h7, ?_, ?_, h10⟩
+      · refine ⟨h1, h2, h3, h4, h5, h6, h7, ?_, ?_, h10, h11⟩
         · intro p hp; simp at hp; rcases hp with rfl | hp
           · simp
           · exact h8 p hp
         · simp
-      · refine ⟨h1, h2, h3, h4, h5, h6, h7, h8, ?_, h10⟩
+      · refine ⟨h1, h2, h3, h4, h5, h6, h7, h8, ?_, h10, h11⟩
         intro m pc f he hf
         simp_all
-    · exact ⟨h1, h2, h3, h4, h5, h6, h7, h8, h9, h10⟩
+    · exact ⟨h1, h2, h3, h4, h5, h6, h7, h8, h9, h10, h11⟩
   | wSend =>
-    obtain ⟨h1, h2, h3, h4, h5, h6, h7, h8, h9, h10⟩ := h
+    obtain ⟨h1, h2, h3, h4, h5, h6, h7, h8, h9, h10, h11⟩ := h
     simp only [step]
     split
     · next m f hi =>
       split
       · next hq => rw [h1.2] at hq; cases hq
       · split
-        · exact ⟨h1, h2, h3, h4, h5, h6, h7, h8, h9, h10⟩
+        · exact ⟨h1, h2, h3, h4, h5, h6, h7, h8, h9, h10, h11⟩
         · next hqn =>
           have hf : f = false := by
             cases f with
             | false => rfl
             | true => have := (h9 m .atSelect true hi rfl).2; cases this
-          refine ⟨h1, h2, h3, h4, h5, h6, ?_, ?_, ?_, h10⟩
+          refine ⟨h1, h2, h3, h4, h5, h6, ?_, ?_, ?_, h10, h11⟩
           · constructor
             · intro hp
               have := h7.1 hp
@@ -155,25 +160,25 @@ theorem inv_step {s : S} (h : Inv s) (a : Act) : Inv (step Cfg.fixed s a) := by
             · simp [hf]
             · exact h8 p hp
           · simp
-    · exact ⟨h1, h2, h3, h4, h5, h6, h7, h8, h9, h10⟩
+    · exact ⟨h1, h2, h3, h4, h5, h6, h7, h8, h9, h10, h11⟩
   | wClosed =>
-    obtain ⟨h1, h2, h3, h4, h5, h6, h7, h8, h9, h10⟩ := h
+    obtain ⟨h1, h2, h3, h4, h5, h6, h7, h8, h9, h10, h11⟩ := h
     simp only [step]
     split
     · split
-      · refine ⟨h1, h2, h3, h4, h5, h6, h7, ?_, ?_, h10⟩
+      · refine ⟨h1, h2, h3, h4, h5, h6, h7, ?_, ?_, h10, h11⟩
         · intro p hp; simp at hp; rcases hp with rfl | hp
           · simp
           · exact h8 p hp
         · simp
-      · exact ⟨h1, h2, h3, h4, h5, h6, h7, h8, h9, h10⟩
-    · exact ⟨h1, h2, h3, h4, h5, h6, h7, h8, h9, h10⟩
+      · exact ⟨h1, h2, h3, h4, h5, h6, h7, h8, h9, h10, h11⟩
+    · exact ⟨h1, h2, h3, h4, h5, h6, h7, h8, h9, h10, h11⟩
   | pumpTake =>
-    obtain ⟨h1, h2, h3, h4, h5, h6, h7, h8, h9, h10⟩ := h
+    obtain ⟨h1, h2, h3, h4, h5, h6, h7, h8, h9, h10, h11⟩ := h
     simp only [step]
     split
     · next m hp hq =>
-      refine ⟨h1, h2, ?_, h4, h5, h6, ?_, h8, h9, h10⟩
+      refine ⟨h1, h2, ?_, h4, h5, h6, ?_, h8, h9, h10, h11⟩
       · intro he; cases he
       · constructor
         · intro _
@@ -182,16 +187,16 @@ theorem inv_step {s : S} (h : Inv s) (a : Act) : Inv (step Cfg.fixed s a) := by
           simp only [pending, List.append_nil]
           exact this
         · exact h7.2
-    · exact ⟨h1, h2, h3, h4, h5, h6, h7, h8, h9, h10⟩
+    · exact ⟨h1, h2, h3, h4, h5, h6, h7, h8, h9, h10, h11⟩
   | pumpCheck =>
-    obtain ⟨h1, h2, h3, h4, h5, h6, h7, h8, h9, h10⟩ := h
+    obtain ⟨h1, h2, h3, h4, h5, h6, h7, h8, h9, h10, h11⟩ := h
     simp only [step]
     split
     · split
       · next hc =>
-        exact ⟨⟨h1.1, rfl⟩, h2, fun _ => hc, h4, h5, h6, ⟨fun hx => absurd rfl hx, h7.2⟩, h8, h9, h10⟩
-      · exact ⟨h1, h2, h3, h4, h5, h6, h7, h8, h9, h10⟩
-    · exact ⟨h1, h2, h3, h4, h5, h6, h7, h8, h9, h10⟩
+        exact ⟨⟨h1.1, rfl⟩, h2, fun _ => hc, h4, h5, h6, ⟨fun hx => absurd rfl hx, h7.2⟩, h8, h9, h10, h11⟩
+      · exact ⟨h1, h2, h3, h4, h5, h6, h7, h8, h9, h10, h11⟩
+    · exact ⟨h1, h2, h3, h4, h5, h6, h7, h8, h9, h10, h11⟩
   | pumpWrite ok =>
     simp only [step]
     split
@@ -199,10 +204,10 @@ theorem inv_step {s : S} (h : Inv s) (a : Act) : Inv (step Cfg.fixed s a) := by
       split
       · exact h
       · split
-        · obtain ⟨h1, h2, h3, h4, h5, h6, h7, h8, h9, h10⟩ := h
+        · obtain ⟨h1, h2, h3, h4, h5, h6, h7, h8, h9, h10, h11⟩ := h
           have ho := h7.1 (by rw [hp]; intro hx; cases hx)
           simp only [pending, hp] at ho
-          refine ⟨h1, h2, ?_, h4, h5, h6, ?_, h8, h9, h10⟩
+          refine ⟨h1, h2, ?_, h4, h5, h6, ?_, h8, h9, h10, h11⟩
           · intro he; cases he
           · constructor
             · intro _
@@ -216,52 +221,52 @@ theorem inv_step {s : S} (h : Inv s) (a : Act) : Inv (step Cfg.fixed s a) := by
         · have he := inv_errorPath h
           have hcl := errorPath_closed h
           have hsame := errorPath_same s
-          obtain ⟨e1, e2, e3, e4, e5, e6, e7, e8, e9, e10⟩ := he
-          refine ⟨⟨e1.1, rfl⟩, e2, fun _ => hcl, e4, e5, e6, ⟨fun hx => absurd rfl hx, ?_⟩, e8, e9, e10⟩
+          obtain ⟨e1, e2, e3, e4, e5, e6, e7, e8, e9, e10, e11⟩ := he
+          refine ⟨⟨e1.1, rfl⟩, e2, fun _ => hcl, e4, e5, e6, ⟨fun hx => absurd rfl hx, ?_⟩, e8, e9, e10, e11⟩
           show (errorPath Cfg.fixed s).peerGot <+: (errorPath Cfg.fixed s).accepted
           rw [hsame.1, hsame.2.1]; exact h.order.2
     · exact h
   | pumpExit =>
-    obtain ⟨h1, h2, h3, h4, h5, h6, h7, h8, h9, h10⟩ := h
+    obtain ⟨h1, h2, h3, h4, h5, h6, h7, h8, h9, h10, h11⟩ := h
     simp only [step]
     split
     · split
       · next hc =>
         have hcl : s.closed = true := by rw [h2.1, ← h2.2.1]; exact hc
-        exact ⟨⟨h1.1, rfl⟩, h2, fun _ => hcl, h4, h5, h6, ⟨fun hx => absurd rfl hx, h7.2⟩, h8, h9, h10⟩
-      · exact ⟨h1, h2, h3, h4, h5, h6, h7, h8, h9, h10⟩
-    · exact ⟨h1, h2, h3, h4, h5, h6, h7, h8, h9, h10⟩
+        exact ⟨⟨h1.1, rfl⟩, h2, fun _ => hcl, h4, h5, h6, ⟨fun hx => absurd rfl hx, h7.2⟩, h8, h9, h10, h11⟩
+      · exact ⟨h1, h2, h3, h4, h5, h6, h7, h8, h9, h10, h11⟩
+    · exact ⟨h1, h2, h3, h4, h5, h6, h7, h8, h9, h10, h11⟩
   | rStart =>
-    obtain ⟨h1, h2, h3, h4, h5, h6, h7, h8, h9, h10⟩ := h
+    obtain ⟨h1, h2, h3, h4, h5, h6, h7, h8, h9, h10, h11⟩ := h
     simp only [step]
     split
     · next hr =>
       rw [hr] at h10
       split
-      · exact ⟨h1, h2, h3, h4, h5, h6, h7, h8, h9, ⟨h10.1, by simpa using h10.2⟩⟩
-      · exact ⟨h1, h2, h3, h4, h5, h6, h7, h8, h9, ⟨h10.1, by simpa using h10.2⟩⟩
-    · exact ⟨h1, h2, h3, h4, h5, h6, h7, h8, h9, h10⟩
+      · exact ⟨h1, h2, h3, h4, h5, h6, h7, h8, h9, ⟨h10.1, by simpa using h10.2⟩, h11⟩
+      · exact ⟨h1, h2, h3, h4, h5, h6, h7, h8, h9, ⟨h10.1, by simpa using h10.2⟩, h11⟩
+    · exact ⟨h1, h2, h3, h4, h5, h6, h7, h8, h9, h10, h11⟩
   | rReturn =>
-    obtain ⟨h1, h2, h3, h4, h5, h6, h7, h8, h9, h10⟩ := h
+    obtain ⟨h1, h2, h3, h4, h5, h6, h7, h8, h9, h10, h11⟩ := h
     simp only [step]
     split
     · next hr =>
       have h10' := h10
       rw [hr] at h10'
       split
-      · exact ⟨h1, h2, h3, h4, h5, h6, h7, h8, h9, ⟨h10'.1, by simpa using h10'.2⟩⟩
+      · exact ⟨h1, h2, h3, h4, h5, h6, h7, h8, h9, ⟨h10'.1, by simpa using h10'.2⟩, h11⟩
       · split
-        · exact ⟨h1, h2, h3, h4, h5, h6, h7, h8, h9, h10⟩
-        · exact ⟨h1, h2, h3, h4, h5, h6, h7, h8, h9, ⟨h10'.1, by simpa using h10'.2⟩⟩
-    · exact ⟨h1, h2, h3, h4, h5, h6, h7, h8, h9, h10⟩
+        · exact ⟨h1, h2, h3, h4, h5, h6, h7, h8, h9, h10, h11⟩
+        · exact ⟨h1, h2, h3, h4, h5, h6, h7, h8, h9, ⟨h10'.1, by simpa using h10'.2⟩, h11⟩
+    · exact ⟨h1, h2, h3, h4, h5, h6, h7, h8, h9, h10, h11⟩
   | rCheck =>
     simp only [step]
     split
     · next i hr =>
       split
-      · obtain ⟨h1, h2, h3, h4, h5, h6, h7, h8, h9, h10⟩ := h
+      · obtain ⟨h1, h2, h3, h4, h5, h6, h7, h8, h9, h10, h11⟩ := h
         rw [hr] at h10
-        exact ⟨h1, h2, h3, h4, h5, h6, h7, h8, h9, ⟨h10.1, by simpa using h10.2⟩⟩
+        exact ⟨h1, h2, h3, h4, h5, h6, h7, h8, h9, ⟨h10.1, by simpa using h10.2⟩, h11⟩
       · next hc =>
         have hc' : s.closed = false := by simpa using hc
         cases i with
@@ -270,10 +275,10 @@ theorem inv_step {s : S} (h : Inv s) (a : Act) : Inv (step Cfg.fixed s a) := by
           simp only [he]
           have hi := inv_errorPath h
           have hsame := errorPath_same s
-          obtain ⟨e1, e2, e3, e4, e5, e6, e7, e8, e9, e10⟩ := hi
+          obtain ⟨e1, e2, e3, e4, e5, e6, e7, e8, e9, e10, e11⟩ := hi
           have hl := h.late
           rw [hr] at hl
-          refine ⟨e1, e2, e3, e4, e5, e6, e7, e8, e9, ?_⟩
+          refine ⟨e1, e2, e3, e4, e5, e6, e7, e8, e9, ?_, e11⟩
           refine ⟨?_, ?_⟩
           · intro _
             show (errorPath Cfg.fixed s).deliveredAfterClose = 0
@@ -281,18 +286,18 @@ theorem inv_step {s : S} (h : Inv s) (a : Act) : Inv (step Cfg.fixed s a) := by
           · show (errorPath Cfg.fixed s).deliveredAfterClose + 0 ≤ 1
             rw [hsame.2.2.1]; have := hl.2; simp at this; omega
         | msg m =>
-          obtain ⟨h1, h2, h3, h4, h5, h6, h7, h8, h9, h10⟩ := h
-          refine ⟨h1, h2, h3, h4, h5, h6, h7, h8, h9, ⟨h10.1, ?_⟩⟩
+          obtain ⟨h1, h2, h3, h4, h5, h6, h7, h8, h9, h10, h11⟩ := h
+          refine ⟨h1, h2, h3, h4, h5, h6, h7, h8, h9, ⟨h10.1, ?_⟩, h11⟩
           have := h10.1 hc'
           simp [this]
     · exact h
   | rDeliver =>
-    obtain ⟨h1, h2, h3, h4, h5, h6, h7, h8, h9, h10⟩ := h
+    obtain ⟨h1, h2, h3, h4, h5, h6, h7, h8, h9, h10, h11⟩ := h
     simp only [step]
     split
     · next m hr =>
       rw [hr] at h10
-      refine ⟨h1, h2, h3, h4, h5, h6, h7, h8, h9, ?_⟩
+      refine ⟨h1, h2, h3, h4, h5, h6, h7, h8, h9, ?_, h11⟩
       by_cases hc : s.closed = true
       · refine ⟨?_, ?_⟩
         · intro hx; rw [hc] at hx; cases hx
@@ -301,13 +306,16 @@ theorem inv_step {s : S} (h : Inv s) (a : Act) : Inv (step Cfg.fixed s a) := by
         refine ⟨?_, ?_⟩
         · intro _; simp [hc']; exact h10.1 hc'
         · have := h10.1 hc'; simp [hc', this]
-    · exact ⟨h1, h2, h3, h4, h5, h6, h7, h8, h9, h10⟩
+    · exact ⟨h1, h2, h3, h4, h5, h6, h7, h8, h9, h10, h11⟩
   | peerSend =>
-    obtain ⟨h1, h2, h3, h4, h5, h6, h7, h8, h9, h10⟩ := h
-    exact ⟨h1, h2, h3, h4, h5, h6, h7, h8, h9, h10⟩
+    obtain ⟨h1, h2, h3, h4, h5, h6, h7, h8, h9, h10, h11⟩ := h
+    exact ⟨h1, h2, h3, h4, h5, h6, h7, h8, h9, h10, h11⟩
   | peerFail =>
-    obtain ⟨h1, h2, h3, h4, h5, h6, h7, h8, h9, h10⟩ := h
-    exact ⟨h1, h2, h3, h4, h5, h6, h7, h8, h9, h10⟩
+    obtain ⟨h1, h2, h3, h4, h5, h6, h7, h8, h9, h10, h11⟩ := h
+    exact ⟨h1, h2, h3, h4, h5, h6, h7, h8, h9, h10, h11⟩
+  | localCloseBegin =>
+    simp only [step, Cfg.fixed, if_true]
+    exact inv_localClose h
   | localClose => exact inv_localClose h
 
 theorem inv_run (acts : List Act) : Inv (run Cfg.fixed acts) := by
@@ -345,7 +353,7 @@ theorem C13_transport_loss (acts : List Act) :
     s.reports = (if s.once && !s.localFirst then 1 else 0) ∧
     ((s.once = true ∧ s.localFirst = false) → s.errSet = true) ∧
     (s.closed = true → s.sock = true ∧ s.closeCh = true) ∧
-    s.deliveredAfterClose ≤ 1 := by
+    s.deliveredAfterClose ≤ 1 ∧ s.reportsAfterLocal = 0 := by
   intro s hs
   rw [wsCfg_is_fixed] at hs
   have h := inv_run acts
@@ -354,7 +362,7 @@ theorem C13_transport_loss (acts : List Act) :
   · intro hc
     have ho : s.once = true := by rw [← h.closedOnce.1]; exact hc
     exact ⟨by rw [h.closedOnce.2.2]; exact ho, by rw [h.closedOnce.2.1]; exact ho⟩
-  · have := h.late.2; omega
+  · exact ⟨by have := h.late.2; omega, h.silent.2⟩
 
 /-- **C13 (pumps terminate)**: once closed, every step of a pump moves it strictly towards `exited`,
     and a pump that has not exited always has such a step. -/
@@ -395,6 +403,12 @@ theorem C12_pinned_panics :
 theorem C13_pinned_leaks_socket :
     let s := run Cfg.pinned [.rStart, .enter, .wCheck, .wSend, .pumpTake, .pumpWrite false, .localClose]
     s.closed = true ∧ s.sock = false ∧ s.reader = .reading := by decide
+
+/-- the design before the last repair: the peer's reply to the close frame of a deliberate local close
+    is reported as a connection error -/
+theorem C13_local_close_reported_before_fix :
+    (run { Cfg.fixed with farewellInsideOnce := false } [.rStart, .localCloseBegin, .rReturn, .rCheck, .localClose]).reportsAfterLocal = 1 := by
+  decide
 
 /-- non-vacuity: messages do get through, in order, and a peer failure is reported once -/
 example : (run Cfg.fixed [.enter, .wCheck, .wSend, .pumpTake, .pumpWrite true, .enter, .wCheck, .wSend, .pumpTake,
